@@ -257,6 +257,24 @@ def run(ctx):
             res.ok(key, b.where(), "candidates evaluated in slice order inside the loop, early return on the first equal one")
         else:
             res.bad(key, "MatchArm::covers must evaluate value candidates in order and stop at the first match", b.where())
+        # no candidate is skipped: within the loop, every way from one `next()` to the following one evaluates the
+        # candidate and compares it with the scrutinee
+        nx = [c for c in b.calls if c.path.rsplit("::", 1)[-1] == "next" and in_cycle(b, c.bb)]
+        eqs = [c for c in b.calls if c.path in ("std::cmp::PartialEq::eq", "std::cmp::PartialEq::ne") and "variable::Variable" in c.self_ty]
+        key = "match:covers|no-candidate-skipped"
+        if len(nx) == 1 and len(ex) == 1 and eqs:
+            hdr = nx[0].bb
+            gates = {ex[0].bb}
+            gates_eq = {c.bb for c in eqs}
+            after = b.reachable_after(hdr, avoid=gates)
+            after_eq = b.reachable_after(hdr, avoid=gates_eq)
+            if hdr in after or hdr in after_eq:
+                res.bad(key, "MatchArm::covers can move on to the next value candidate without evaluating the current one and comparing it "
+                             "with the scrutinee: an arm whose value equals the scrutinee may be skipped", b.where(nx[0].line))
+            else:
+                res.ok(key, b.where(nx[0].line), "every iteration evaluates its candidate and compares it (Variable ==)")
+        else:
+            res.bad(key, "cannot find the candidate loop of MatchArm::covers (next / exec / Variable == )", b.where())
 
     # sequences: forward iteration only
     for bid, f in list(SEQUENCE_BODIES.items()) + [(P % "r#struct::Struct", "values"), ("interpreter::Interpreter::<'a>::exec", "instructions")]:
